@@ -866,7 +866,7 @@ def enteringNext (sh : Shared D L) (ev : KeyEvent) : StepRes D L :=
 /-- `EnteringSyllable`: the layout has answered `beh` (its new state is already in `sh`) -/
 def syllableAnswer (sh : Shared D L) (beh : LayoutBeh) : StepRes D L :=
   match beh with
-  | .absorb => .ok (sh, .spin .absorb)
+  | .absorb => if env.sylIsEmpty sh.syl then .ok (sh, .toState .entering) else .ok (sh, .spin .absorb)
   | .fuzzy s =>
     if env.hasPhrase sh.dict [s] sh.options.lookupStrategy then
       withCom sh (sh.com.insert (.syl s)) fun sh => .ok (sh, .spin .absorb)
@@ -1078,8 +1078,7 @@ def applyTrans (sh : Shared D L) (st : St) (t : Trans) : Shared D L × St :=
 /-- `BasicEditor::process_keyevent`: returns the new editor and the reported behaviour -/
 def Editor.processKey (e : Editor D L) (ev : KeyEvent) : Outcome (Editor D L × KB) :=
   let sh := e.shared
-  let sh := { sh with time := sh.time + 1, noticeBuf := [] }
-  let sh := if sh.last == .commit then { sh with commitBuf := [] } else sh
+  let sh := { sh with time := sh.time + 1, noticeBuf := [], commitBuf := [] }
   let r : Outcome (Shared D L × St) :=
     match e.state with
     | .entering => (enteringNext env sh ev).map fun (sh', t) => applyTrans sh' .entering t
@@ -1107,15 +1106,24 @@ def Editor.clear (e : Editor D L) : Editor D L :=
 /-- `Editor::ack` -/
 def Editor.ack (e : Editor D L) : Editor D L := { e with shared := { e.shared with commitBuf := [] } }
 
+/-- `Editor::leave_entering_syllable_if_empty`: an API call that emptied the phonetic buffer returns the
+    editor to `Entering` -/
+def Editor.leaveIfEmpty (e : Editor D L) : Editor D L :=
+  if env.sylIsEmpty e.shared.syl && e.state == .enteringSyllable then { e with state := .entering } else e
+
 /-- `Editor::clear_syllable_editor` -/
 def Editor.clearSyllableEditor (e : Editor D L) : Editor D L :=
-  { e with shared := { e.shared with syl := env.clearSyl e.shared.syl } }
+  Editor.leaveIfEmpty env { e with shared := { e.shared with syl := env.clearSyl e.shared.syl } }
+
+/-- `Editor::set_syllable_editor` -/
+def Editor.setLayout (e : Editor D L) (l : L) : Editor D L :=
+  Editor.leaveIfEmpty env { e with shared := { e.shared with syl := l } }
 
 /-- `Editor::set_editor_options` -/
 def Editor.setOptions (e : Editor D L) (o : Options) : Editor D L :=
   let sh := e.shared
   let sh := if sh.options.languageMode != o.languageMode then { sh with syl := env.clearSyl sh.syl } else sh
-  { e with shared := { sh with options := o } }
+  Editor.leaveIfEmpty env { e with shared := { sh with options := o } }
 
 /-- `Editor::select(n)`; `Bool` = `Ok` -/
 def Editor.select (e : Editor D L) (n : Nat) : Outcome (Editor D L × Bool) :=
@@ -1157,10 +1165,11 @@ def Editor.startSelecting (e : Editor D L) : Outcome (Editor D L × Bool) :=
   match r with
   | .ok (sh, t) =>
     let (sh, st) := applyTrans sh e.state t
-    let isSel := match st with
+    let e' := Editor.leaveIfEmpty env { shared := sh, state := st }
+    let isSel := match e'.state with
       | .selecting _ => true
       | _ => false
-    .ok ({ shared := sh, state := st }, isSel)
+    .ok (e', isSel)
   | .panic p => .panic p
   | .outOfFuel => .outOfFuel
 
@@ -1224,7 +1233,7 @@ def Editor.apply (e : Editor D L) : Op L → Outcome (Editor D L)
   | .ack => .ok e.ack
   | .clearSyl => .ok (e.clearSyllableEditor env)
   | .setOptions o => .ok (e.setOptions env o)
-  | .setLayout l => .ok { e with shared := { e.shared with syl := l } }
+  | .setLayout l => .ok (e.setLayout env l)
   | .setEngine k => .ok { e with shared := { e.shared with engine := k } }
   | .learn k p => (Shared.learnPhrase env e.shared k p).map fun (sh, _) => { e with shared := sh }
   | .unlearn k p => .ok { e with shared := Shared.unlearnPhrase env e.shared k p }
